@@ -143,6 +143,9 @@ class World:
         cls = CLASSES[op["cls"]]
         keys = _keyarr(op["keys"], op.get("key_dtype"))
         kw = {}
+        if op.get("keys_as_list"):
+            keys = list(op["keys"])
+            kw["key_dtype"] = np.dtype(op["key_dtype"]).type
         if op.get("mod") is not None:
             kw["mod"] = op["mod"]
         val = op.get("values")
@@ -205,7 +208,8 @@ class World:
     def op_get(self, i, op):
         hname, key = op["h"], op["key"]
         model = self.m[hname]
-        st, r = self._call(lambda: self.h[hname][op["key"]])
+        k = np.dtype(op["np_key"]).type(key) if op.get("np_key") else key
+        st, r = self._call(lambda: self.h[hname][k])
         if key not in model:
             self.count("scalar_lookup_absent")
             return  # outside the statement
@@ -237,6 +241,8 @@ class World:
     def _value(self, v):
         if v[0] == "scalar":
             return v[1], None
+        if v[0] == "list":
+            return list(v[2]), v[2]
         return np.array(v[2], dtype=v[1]), v[2]
 
     def op_set(self, i, op):
@@ -244,7 +250,8 @@ class World:
         model = self.m[hname]
         val, _ = self._value(op["value"])
         before = self.state_of(hname)
-        st, r = self._call(lambda: self.h[hname].__setitem__(key, val))
+        k = np.dtype(op["np_key"]).type(key) if op.get("np_key") else key
+        st, r = self._call(lambda: self.h[hname].__setitem__(k, val))
         if key not in model:
             return
         if st == "raised":
